@@ -13,7 +13,7 @@ RULE = ("each case is a sequence of 1-25 derivation calls (function drawn from 2
         "server permutation. Non-trivial = sequence with >=2 calls of the same function sharing an argument; distinct by call list.")
 LEVEL_TEXT = "Differential search against a 100-line reference written from the specification (tagged SHA-256d with netstring framing, truncation); call sequences exercise state carried between calls."
 ASSUMPTIONS = ["hashlib SHA-256/SHA-1 are correct; the tag strings are the specification's constants"]
-REQUIRED_CLASSES = ["repeat-same-key", "chain", "convergence-chunked"]
+REQUIRED_CLASSES = ["repeat-same-key", "chain", "convergence-chunked", "node-chains", "second-file-same-server", "child-writecap"]
 BUDGET = {"quick": 600, "thorough": 3600}
 
 FUNCS = ["storage_index_hash", "ssk_readkey_hash", "ssk_storage_index_hash", "ssk_write_enabler_master_hash", "ssk_write_enabler_hash",
@@ -25,7 +25,7 @@ FUNCS = ["storage_index_hash", "ssk_readkey_hash", "ssk_storage_index_hash", "ss
 
 def plan(tier):
     n = 600 if tier == "quick" else 3000
-    return [{"kind": "hyp", "n": n} for _ in range(16)]
+    return [{"kind": "hyp", "n": n} for _ in range(12)] + [{"kind": "hyp", "fam": "nodes", "n": n // 3} for _ in range(4)]
 
 
 def cases():
@@ -35,7 +35,99 @@ def cases():
 
 
 def run_shard(spec, ctx):
-    ctx.drive(cases(), spec["n"], run_case)
+    if spec.get("fam") == "nodes":
+        ctx.drive(node_cases(), spec["n"], run_node_case)
+    else:
+        ctx.drive(cases(), spec["n"], run_case)
+
+
+def node_cases():
+    q = st.tuples(st.sampled_from(["we", "renew", "cancel"]), st.integers(0, 3), st.integers(0, 2))
+    return st.fixed_dictionaries({"fam": st.just("nodes"), "salt": st.integers(0, 10 ** 6), "lease": st.integers(0, 3), "kinds": st.lists(st.sampled_from(["SSK", "MDMF", "DIR2", "DIR2-MDMF"]), min_size=2, max_size=4),
+                                  "queries": st.lists(q, min_size=2, max_size=16),
+                                  "children": st.lists(st.tuples(st.sampled_from(["SSK", "MDMF", "DIR2", "CHK", "LIT"]), st.integers(0, 5)), min_size=1, max_size=5)})
+
+
+class _Srv:
+    def __init__(self, seed):
+        self.seed = seed
+
+    def get_lease_seed(self):
+        return self.seed
+
+    def get_foolscap_write_enabler_seed(self):
+        return self.seed
+
+
+def run_node_case(case, ctx):
+    """The chains as the client objects compute them: several mutable files/directories of one client asking for secrets for several servers in a generated order
+    (state carried between calls must not matter), and the encryption of child write caps inside a directory."""
+    import struct
+    from allmydata.nodemaker import NodeMaker
+    from allmydata.client import SecretHolder
+    from allmydata.interfaces import SDMF_VERSION
+    from allmydata.dirnode import pack_children
+    from allmydata.util.netstring import split_netstring
+    from allmydata.crypto import aes
+    from vf import caps as C
+    salt = case["salt"]
+    lease = val(salt, b"lease", case["lease"], 32)
+    nm = NodeMaker(None, SecretHolder(lease, b"conv"), None, None, None, {"k": 3, "n": 10, "happy": 7, "max_segment_size": 1000}, SDMF_VERSION, None, None)
+    files = []
+    for i, kind in enumerate(case["kinds"]):
+        cap = C.make({"kind": kind, "a": salt % 1000 + i * 7, "b": salt % 1000 + i * 7 + 3, "k": 3, "n": 10, "size": 100, "lit": ""})
+        node = nm.create_from_cap(cap.to_string())
+        fn = getattr(node, "_node", node)       # the mutable file node behind a directory
+        inner = cap._filenode_uri if kind.startswith("DIR2") else cap
+        files.append((kind, fn, inner.writekey, inner.get_storage_index() if hasattr(inner, "get_storage_index") else inner.storage_index))
+    servers = [_Srv(val(salt, b"server", j, 20)) for j in range(3)]
+    classes = set()
+    asked = set()
+    for (what, fi, sj) in case["queries"]:
+        kind, fn, wk, si_ = files[fi % len(files)]
+        srv = servers[sj]
+        if what == "we":
+            got, exp = fn.get_write_enabler(srv), RH.write_enabler(wk, srv.seed)
+        elif what == "renew":
+            got, exp = fn.get_renewal_secret(srv), RH.bucket_renewal(RH.file_renewal(RH.client_renewal(lease), si_), srv.seed)
+        else:
+            got, exp = fn.get_cancel_secret(srv), RH.bucket_cancel(RH.file_cancel(RH.client_cancel(lease), si_), srv.seed)
+        if any(a[0] == what and a[2] == sj and a[1] != fi % len(files) for a in asked):
+            classes.add("second-file-same-server")
+        asked.add((what, fi % len(files), sj))
+        ctx.check(got == exp, "node-secret-differs", "%s of %s file #%d for server #%d: node gives %s, the specified chain gives %s (queries so far %r)" % (
+            {"we": "write enabler", "renew": "lease renewal secret", "cancel": "lease cancel secret"}[what], kind, fi % len(files), sj, got.hex()[:16], exp.hex()[:16], case["queries"]), what=what)
+    # ---- child write caps inside a directory: salt = H(rwcap), key = H(salt, writekey), AES-CTR, HMAC
+    wk = files[0][2]
+    children, rws = {}, {}
+    for ci, (ckind, ca) in enumerate(case["children"]):
+        ccap = C.make({"kind": ckind, "a": 300 + ca, "b": 400 + ca, "k": 3, "n": 10, "size": 100 + ca, "lit": (b"lit%d" % ca).hex()})
+        cs = ccap.to_string()
+        if ckind in C.WRITE_KINDS:
+            cnode = nm.create_from_cap(cs, ccap.get_readonly().to_string())
+            rws[u"child%d" % ci] = cs
+        else:
+            cnode = nm.create_from_cap(None, cs)
+        children[u"child%d" % ci] = (cnode, {})
+    packed = pack_children(children, wk)
+    pos = 0
+    salts = {}
+    while pos < len(packed):
+        (entry,), pos = split_netstring(packed, 1, pos)
+        (name, ro, rwcapdata, md), _ = split_netstring(entry, 4)
+        name = name.decode("utf-8")
+        rw = rws.get(name, b"")
+        ivx, ct, mac = rwcapdata[:16], rwcapdata[16:-32], rwcapdata[-32:]
+        exp_salt = RH.dirnode_rwcap_salt(rw)
+        ctx.check(ivx == exp_salt, "rwcap-salt-differs", "directory entry %r: stored salt %s, the specification gives H(rwcap) = %s" % (name, ivx.hex(), exp_salt.hex()))
+        key = RH.dirnode_rwcap_key(exp_salt, wk)
+        plain = aes.decrypt_data(aes.create_decryptor(key), ct)
+        ctx.check(plain == rw, "rwcap-not-decryptable-by-spec", "directory entry %r: decrypting the write-cap slot with the specified key gives %r, expected %r" % (name, plain[:40], rw[:40]))
+        if rw:
+            ctx.check(ivx not in salts or salts[ivx] == rw, "rwcap-salt-reused", "directory entries %r share one salt (and so one key stream) for different write caps" % (name,))
+            salts[ivx] = rw
+            classes.add("child-writecap")
+    ctx.note(sig=repr(case), nontrivial="second-file-same-server" in classes, classes=["node-chains"] + sorted(classes), sample={"kinds": case["kinds"], "queries": case["queries"][:6]})
 
 
 def val(salt, typ, i, size):
